@@ -301,6 +301,30 @@ def errors(ctx, facts, send, main):
         ctx.ob("ERR", "size-hint-guard", False, "no guard against input longer than its size hint", site_of(send))
 
 
+def _root_local(b, op, depth=0):
+    """the local an operand ultimately refers to, through moves, copies, reborrows and deref_mut-style forwarding"""
+    l = F.op_local(op) if isinstance(op, dict) else op
+    for _ in range(12):
+        ds = b.defs().get(l, [])
+        if len(ds) != 1:
+            return l
+        bb, idx, d = ds[0]
+        if idx == "t":
+            if re.search(r"(Deref::deref|DerefMut::deref_mut|AsMut::as_mut|AsRef::as_ref|Borrow::borrow|BorrowMut::borrow_mut|IntoIterator::into_iter)$", F.callee(d)[0] or "") and d["args"]:
+                l = F.op_local(d["args"][0])
+                if l is None:
+                    return None
+                continue
+            return l
+        if d["k"] in ("ref", "raw") and d.get("p"):
+            l = d["p"][0]
+        elif d["k"] == "use" and F.op_local(d["o"]) is not None:
+            l = F.op_local(d["o"])
+        else:
+            return l
+    return l
+
+
 def order(ctx, facts, send, main):
     ctx.rule("ORDER: r[usize::from(shard_id)].push(m) with shard_id taken from the merged stream item; result = r.into_iter().flatten().collect(); no parallel combinator inside the send closure; send stream built by try_unfold and merged with select")
     pushes = flow.find_calls(main, re.compile(r"Vec::<T, A>::push$|Vec::<T>::push$"))
@@ -313,8 +337,53 @@ def order(ctx, facts, send, main):
             okp = "From::from" in e and "try_next" in e and ("'0'" in e or ", 0)" in e)
     ctx.ob("ORDER", "slot-by-source-shard", okp, "records are appended to the slot of the shard they came from" if okp else "the output slot is not keyed by the source shard id of the item (arrival order would leak into the result order)", site_of(main, site) if site is not None else site_of(main))
     names = [F.callee(t)[0] or "" for _, t in main.calls()]
-    ok_flat = any(n.endswith("Iterator::flatten") for n in names) and any(n.endswith("Iterator::collect") for n in names)
-    ctx.ob("ORDER", "flatten-in-shard-order", ok_flat, "result is the concatenation of the per-source-shard vectors in index order", site_of(main))
+    # the result is the concatenation of the buckets r[0], r[1], .. in that order.  Accepted forms, identified by what
+    # they do: collect(flatten(into_iter(r))), or a vector that is only ever extended with the items of an exhaustive
+    # loop over into_iter(r).  `r` is the value the buckets were pushed into.
+    r_loc = None
+    for bb, t in pushes:
+        e0 = flow.strip_casts(flow.expr_of(main, t["args"][0], max_depth=8))
+        if e0[0] == "call" and e0[1].endswith("IndexMut::index_mut"):
+            ix = [(b2, t2) for b2, t2 in main.calls() if (F.callee(t2)[0] or "").endswith("IndexMut::index_mut") and t2["d"] and _root_local(main, t["args"][0]) == t2["d"][0]]
+            if ix:
+                r_loc = _root_local(main, ix[0][1]["args"][0])
+    why_flat = None
+    rv_op = None
+    for o in malsec.ok_blocks(main):
+        for st in main.stmts(o):
+            if "p" in st and st["p"] == [0] and st["r"]["k"] == "agg":
+                rv_op = st["r"]["ops"][0]
+    rets_ = [x for x in main.live_blocks() if main.term(x)["k"] == "ret"]
+    if r_loc is None or rv_op is None:
+        why_flat = "the per-source-shard buckets or the returned vector were not found"
+    else:
+        rv_loc = _root_local(main, rv_op)
+        d_ = main.defs().get(rv_loc, [])
+        prod = d_[0][2] if len(d_) == 1 and d_[0][1] == "t" else None
+        pfn = (F.callee(prod)[0] or "") if prod else ""
+        if pfn.endswith("Iterator::collect"):
+            chain = flow.strip_casts(flow.expr_of(main, prod["args"][0], max_depth=6))
+            fl = [(b2, t2) for b2, t2 in main.calls() if (F.callee(t2)[0] or "").endswith("Iterator::flatten") and t2["d"] and t2["d"][0] == _root_local(main, prod["args"][0])]
+            if not fl or _root_local(main, fl[0][1]["args"][0]) != r_loc:
+                why_flat = "the collected iterator is not flatten() over the buckets themselves (an adaptor such as rev / skip / a different source changes the order or drops a bucket)"
+        elif pfn.endswith("concat"):
+            if _root_local(main, prod["args"][0]) != r_loc:
+                why_flat = "concat() is not applied to the buckets"
+        elif re.search(r"Vec::<T(, A)?>::(new|with_capacity)$", pfn):
+            muts = [(b2, t2) for b2, t2 in main.calls() if re.search(r"(Extend<.*>>::extend|Extend::extend|Vec::<T, A>::(append|extend_from_slice|push|insert|extend|truncate|clear|pop|remove|swap_remove|drain|retain|sort\w*|reverse|dedup\w*))$", F.callee(t2)[0] or "") and t2["args"] and _root_local(main, t2["args"][0]) == rv_loc]
+            nxt = [(b2, t2) for b2, t2 in main.calls() if (F.callee(t2)[0] or "").endswith("Iterator::next") and _root_local(main, t2["args"][0]) == r_loc]
+            if len(muts) != 1 or len(nxt) != 1 or not re.search(r"(extend|append|extend_from_slice)$", F.callee(muts[0][1])[0] or ""):
+                why_flat = "the returned vector is not filled by exactly one extend inside one loop over the buckets"
+            else:
+                item = str(flow.expr_of(main, muts[0][1]["args"][1], max_depth=10))
+                N_ = nxt[0][0]
+                if "Iterator::next" not in item or "'as:Some'" not in item:
+                    why_flat = "what is appended to the result is not the bucket the loop is at"
+                elif any(r_ in main.reachable(muts[0][0], avoid=frozenset([N_])) for r_ in rets_):
+                    why_flat = "the loop over the buckets can end before the last bucket"
+        else:
+            why_flat = f"the result is produced by {pfn.split('::')[-1] or 'something'} and not by concatenating the buckets in index order"
+    ctx.ob("ORDER", "flatten-in-shard-order", why_flat is None, "result is the concatenation of the per-source-shard vectors in index order" if why_flat is None else why_flat + " (the order in which each shard holds its records must be the same on all three helpers)", site_of(main))
     ctx.ob("ORDER", "send-is-try_unfold", any(n.endswith("stream::try_unfold") for n in names) and any(n.endswith("stream::select") for n in names), "sequential send loop (try_unfold) merged with the receive stream (select)", site_of(main))
     par = [F.callee(t)[0] for _, t in send.calls() if re.search(r"(join_all|try_join|join\d?|select|seq_join|parallel_join|FuturesUnordered|spawn)$", F.callee(t)[0] or "")]
     ctx.ob("ORDER", "send-closure-sequential", not par, "no concurrent combinator inside the send step" if not par else f"sends are issued concurrently ({par[:2]}): per-destination order is no longer the input order", site_of(send))
@@ -327,13 +396,40 @@ def split(ctx, facts):
         return ctx.missing("SPLIT", "StreamSplitter::poll_next")
     b = bs[0]
     dom = b.dominators()
-    pushes = flow.find_calls(b, re.compile(r"Vec::<T, A>::push$|Vec::<T>::push$"))
-    ok = False
-    for bb, idx, s in b.iter_assigns():
-        r = s["r"]
-        if r["k"] == "agg" and r.get("adt") == "std::result::Result" and r["vn"] == "Ok":
-            ok = bool(pushes) and any(flow.dominates(dom, pb, bb) for pb, _ in pushes)
-    ctx.ob("SPLIT", "push-then-yield", ok and len(pushes) == 1, "each item's data part is stored exactly once before its tag is yielded" if ok else "tag is yielded without storing the data part (data and tags get out of step)", site_of(b))
+    prx = re.compile(r"Vec::<T, A>::push$|Vec::<T>::push$")
+    tree = [x for p_, x in facts.bodies.items() if p_ == b.path or p_.startswith(b.path + "::{closure")]
+    where = [(x, bb) for x in tree for bb, _ in flow.find_calls(x, prx)]
+    ok, why = False, "tag is yielded without storing the data part (data and tags get out of step)"
+    if len(where) == 1:
+        pbody, pbb = where[0]
+        if pbody is b:
+            # explicit match: every Ok(..) built for the caller is dominated by the push
+            oks_ = [bb for bb, idx, s_ in b.iter_assigns() if s_["r"]["k"] == "agg" and s_["r"].get("adt") == "std::result::Result" and s_["r"]["vn"] == "Ok"]
+            ok = bool(oks_) and all(flow.dominates(dom, pbb, o) for o in oks_)
+        else:
+            # closure form: `item.map(|(data, tag)| { buf.push(data); tag })` - the closure stores before it returns on
+            # every path, and it is the function given to Result::map (so it runs for every Ok item and for nothing else)
+            rets_ = [x for x in pbody.live_blocks() if pbody.term(x)["k"] == "ret"]
+            stores_first = pbb == 0 or not any(r_ in pbody.reachable(0, avoid=frozenset([pbb])) for r_ in rets_)
+            old_cd = flow.CLOSURE_DEFS
+            flow.CLOSURE_DEFS = True
+            try:
+                parent = facts.bodies.get(pbody.path.rsplit("::{closure", 1)[0])
+                given = False
+                if parent is not None:
+                    for bb, t in parent.calls():
+                        if re.search(r"Result::<T, E>::map$", F.callee(t)[0] or "") and len(t["args"]) == 2:
+                            a1 = flow.expr_of(parent, t["args"][1], max_depth=4)
+                            if a1[0] == "agg" and isinstance(a1[1], tuple) and a1[1][1] == pbody.path:
+                                given = True
+            finally:
+                flow.CLOSURE_DEFS = old_cd
+            ok = stores_first and given
+            if not given:
+                why = "the closure that stores the data part is not the one applied to every Ok item (Result::map)"
+    elif len(where) > 1:
+        why = "the data part is stored more than once per item"
+    ctx.ob("SPLIT", "push-then-yield", ok, "each item's data part is stored exactly once before its tag is yielded" if ok else why, site_of(b))
     sh = [bd for p, bd in facts.bodies.items() if p.startswith("<query::runner::reshard_tag::StreamSplitter<") and p.endswith("Stream>::size_hint")]
     oks = bool(sh) and any((F.callee(t)[0] or "").endswith("Stream::size_hint") for _, t in sh[0].calls())
     ctx.ob("SPLIT", "size-hint-delegates", oks, "size_hint is the inner stream's", site_of(sh[0]) if sh else None)
